@@ -4,7 +4,8 @@
 (*   {"ev":"reset","pers":[..]}   new system; pers: the clients that use cleanSession=false           *)
 (*   {"ev":"sub","c":..,"fs":[filter..],"qs":[..],"ok":bool}     SUBSCRIBE and whether it was     *)
 (*                                                               accepted (SUBACK / nil error)   *)
-(*   {"ev":"unsub","c":..,"fs":[..]}   {"ev":"disc","c":..}                                      *)
+(*   {"ev":"unsub","c":..,"fs":[..]}   UNSUBSCRIBE (well-formed and malformed filters, mixed)        *)
+(*   {"ev":"disc","c":..}                                                                         *)
 (*   {"ev":"takeover","c":..}     a cleanSession=true connection took c's id over and the old      *)
 (*                                connection has ended (its teardown is complete)                   *)
 (*   {"ev":"resume","c":..}       the connection of c's persistent session (cleanSession=false) ended  *)
@@ -28,7 +29,8 @@ TSub == /\ IsEvent("sub")
         /\ \E keep \in SUBSET (1..Len(TLog[l].fs)) : Subscribe(TLog[l].c, TLog[l].fs, TLog[l].qs, keep)
         /\ last'.ok = TLog[l].ok
 
-TUnsub == IsEvent("unsub") /\ Unsubscribe(TLog[l].c, TLog[l].fs)
+TUnsub == /\ IsEvent("unsub")
+          /\ \E rem \in SUBSET (1..Len(TLog[l].fs)) : Unsubscribe(TLog[l].c, TLog[l].fs, rem)
 
 TDisc == IsEvent("disc") /\ Disconnect(TLog[l].c)
 
